@@ -141,7 +141,7 @@ class Report:
             for n in r.get("cross_notes", []):
                 self.inconclusive.append("second solver disagrees: " + n)
 
-    def red_enough(self, n=25) -> bool:
+    def red_enough(self, n=10) -> bool:
         """A run that already has n confirmed violations is red; the remaining cases are skipped (and said so)."""
         if len(self.violations) >= n:
             self.extra["stopped_early"] = f"{len(self.violations)} confirmed violations; remaining cases skipped"
